@@ -421,6 +421,9 @@ def make_config(seed, tier="quick", half="c17"):
         settle_decision="accept",  # a reject is always an explicit action of the trace
         pick=r.randint(0, 5),
         lenient_reject_orderid=r.random() < 0.5,
+        # the helper validates what it fabricates itself (it is given the schema); the
+        # oracle validates again, independently of the helper's own call, in these runs
+        revalidate=(tier == "thorough") or r.random() < 0.125,
     )
     return cfg
 
@@ -1063,6 +1066,7 @@ class C20aMachine(_MachineBase):
         self.exec_ids = set()
         self.order_id_seen = None
         self.lenient_rej_oid = bool(cfg.get("lenient_reject_orderid"))
+        self.revalidate = bool(cfg.get("revalidate", True))
         self.cur_req = None
 
     def quiescent(self):
@@ -1133,11 +1137,12 @@ class C20aMachine(_MachineBase):
         self.note_msg("E>C ", m)
         self.log.append(("helper fabricates", s["label"], msg_text(m)))
         vs = []
-        try:
-            self.schema.validate(m)
-        except Exception as e:
-            vs.append(("helper-fabricates-valid-reports", f"C20/helper-report-invalid/{type(e).__name__}/{what}",
-                       f"{s['label']} [{msg_text(m)}] does not validate: {e!r}"))
+        if self.revalidate:
+            try:
+                self.schema.validate(m)
+            except Exception as e:
+                vs.append(("helper-fabricates-valid-reports", f"C20/helper-report-invalid/{type(e).__name__}/{what}",
+                           f"{s['label']} [{msg_text(m)}] does not validate: {e!r}"))
         oid = m.get(37, None)
         if s["t"] == "8":
             try:
